@@ -24,15 +24,25 @@ package main
 // Whole numbers of up to ten digits are unix seconds, longer ones unix nanoseconds (so the two
 // spellings n and n*1e9 of an instant between 2001 and 2200 denote the same time); whatever is
 // not a number is read as RFC3339 with nanoseconds.
+//@ func isDigits
+//@   pure
+//@   loop 0 invariant 0 <= i && i <= len(s)
+
 //@ func parseTimestamp
-//@   capture pi = call(strconv.ParseInt, 0)
+//@   capture ct = call(strings.Cut, 0)
+//@   capture ps = call(strconv.ParseInt, 0)
+//@   capture pn = call(strconv.ParseInt, 1)
+//@   capture pi = call(strconv.ParseInt, 2)
 //@   capture tp = call(time.Parse, 0)
 //@   ensures[default] lt == "" ==> ret1 == nil && ret0 == def
+//@   ensures[decimal-seconds-keep-every-digit-of-the-fraction] ps_called && pn_called && ps_r1 == nil && pn_r1 == nil ==> ret1 == nil && ret0 == time.Unix(ps_r0, pn_r0)
+//@   ensures[fraction-is-read-as-nanoseconds] pn_called ==> ct_called && ct_a0 == string(lt) && ct_a1 == "." && ps_a0 == ct_r0 && len(ct_r1) <= 9 && pn_a0 == ct_r1 + strings.Repeat("0", 9-len(ct_r1)) && pn_a1 == 10 && ps_a1 == 10
+//@   ensures[digits-dot-digits-takes-the-exact-path] lt != "" && ct_r2 && isDigits(ct_r0) && isDigits(ct_r1) && len(ct_r1) <= 9 ==> ps_called && pn_called
 //@   ensures[number-read-from-the-whole-text] pi_called ==> pi_a0 == string(lt) && pi_a1 == 10 && pi_a2 == 64
 //@   ensures[up-to-ten-digits-are-seconds] pi_called && pi_r1 == nil && len(lt) <= 10 ==> ret1 == nil && ret0 == time.Unix(pi_r0, 0)
 //@   ensures[longer-numbers-are-nanoseconds] pi_called && pi_r1 == nil && len(lt) > 10 ==> ret1 == nil && ret0 == time.Unix(0, pi_r0)
 //@   ensures[anything-else-is-RFC3339] pi_called && pi_r1 != nil ==> tp_called && tp_a0 == time.RFC3339Nano && tp_a1 == string(lt) && ret0 == tp_r0 && ret1 == tp_r1
-//@   ensures[no-silent-default] lt != "" && ret1 == nil ==> (pi_called && pi_r1 == nil) || (tp_called && tp_r1 == nil) || strings.Contains(string(lt), ".")
+//@   ensures[no-silent-default] lt != "" && ret1 == nil ==> (pi_called && pi_r1 == nil) || (tp_called && tp_r1 == nil) || strings.Contains(string(lt), ".") || (ct_called && ct_r2)
 
 //@ func parseTimeRange
 //@   capture pe = call(parseTimestamp, 0)
